@@ -144,6 +144,11 @@ def run_shard(check_mod, part_index, tier, seed, shard, excluded_names):
     except Exception:
         res.harness_error = traceback.format_exc()
         return res
+    # the time budget starts when the shard is ready (worker start-up on a loaded machine must not eat it), and a
+    # minimum number of cases is always run, so that a slow machine makes a run smaller, never vacuous
+    deadline = time.time() + budget["seconds"]
+    min_cases = max(5, budget["examples"] // 20)
+    ran = [0]
 
     def evaluate(case, in_search):
         for n, pred in preds:
@@ -214,9 +219,10 @@ def run_shard(check_mod, part_index, tier, seed, shard, excluded_names):
                 if first_fail[0] is not None:
                     if now - first_fail[0] > SHRINK_SECONDS[tier]:
                         return
-                elif now > deadline:
+                elif now > deadline and ran[0] >= min_cases:
                     res.budget_hit = True
                     return
+                ran[0] += 1
                 try:
                     evaluate(case, True)
                 except Violation as v:
